@@ -290,8 +290,20 @@ fn check_mutation(rep: &mut Report, rng: &mut Rng, pool: &[Enr]) {
         }
         3 => {
             let real = p.authdata.len() as i64;
-            let delta = *rng.pick(&[-40i64, -3, -2, -1, 1, 2, 3, 40, 1000]);
-            p.authdata_size_override = Some((real + delta).clamp(0, 65535) as u16);
+            if rng.chance(1, 3) {
+                // the far end of the 16-bit field (sums with the fixed header length wrap there)
+                p.authdata_size_override = Some(match rng.below(6) {
+                    0 => 65535,
+                    1 => 65535 - rng.below(64) as u16,
+                    2 => 65512 + rng.below(3) as u16,
+                    3 => 32768 - 2 + rng.below(4) as u16,
+                    4 => 1280 - 40 + rng.below(80) as u16,
+                    _ => rng.below(65536) as u16,
+                });
+            } else {
+                let delta = *rng.pick(&[-40i64, -3, -2, -1, 1, 2, 3, 40, 1000]);
+                p.authdata_size_override = Some((real + delta).clamp(0, 65535) as u16);
+            }
             "mut:authsize"
         }
         4 => {
@@ -379,13 +391,89 @@ fn exhaustive(rep: &mut Report, rng: &mut Rng, pool: &[Enr]) {
             p.flag = flag;
             differential(rep, &dst, &p.encode(&dst), "all-flags", false);
         }
-        for size in 0..2048u16 {
+        for size in (0..2048u16).chain(65000..=65535u16) {
             let mut p = t.clone();
             p.authdata_size_override = Some(size);
             differential(rep, &dst, &p.encode(&dst), "all-authsizes", false);
         }
     }
-    rep.extra.insert("exhaustive_subspaces".into(), json!(["random bytes of every length 0..1400", "every truncation point of 30 datagrams", "all 256 flag bytes on 3 templates", "all authdata-size values 0..2047 on 3 templates"]));
+    rep.extra.insert("exhaustive_subspaces".into(), json!(["random bytes of every length 0..1400", "every truncation point of 30 datagrams", "all 256 flag bytes on 3 templates", "all authdata-size values 0..2047 and 65000..65535 on 3 templates"]));
+}
+
+/// A node configured with its own protocol id / version (the real receive path: socket task,
+/// `Packet::decode`, handler) accepts datagrams of that identity only and emits that identity.
+pub fn scenario_identity(seed: u64, rep: &mut Report) {
+    use crate::peer::peersim::signing_key;
+    use crate::rig::r1::{runtime, v4, RigConfig, WireRig};
+    use discv5::verif::{HandlerIn, HandlerOut, Request, RequestBody};
+    let rt = runtime(seed);
+    rt.block_on(async {
+        let mut rng = Rng::new(seed ^ 0x1DE);
+        let own_id: [u8; 6] = if rng.bool() { *b"custom" } else { rng.array() };
+        let own_ver: [u8; 2] = if rng.bool() { [0, 1] } else { [rng.below(256) as u8, rng.below(256) as u8] };
+        if own_id == codec_ref::PROTOCOL_ID && own_ver == [0, 1] {
+            return;
+        }
+        let cfg = RigConfig { protocol_identity: Some(discv5::ProtocolIdentity { protocol_id: own_id, protocol_version: own_ver }), ..Default::default() };
+        let rig = WireRig::start(&mut rng, cfg).await;
+        let vid = rig.victim_id();
+        rep.evaluations += 1;
+        rep.count("identity_scenarios");
+        // inbound: the same kind of datagram under four identities
+        let mut other_ver = own_ver;
+        other_ver[1] ^= 1 << rng.below(8);
+        let mut other_id = own_id;
+        other_id[rng.usize(6)] ^= 1 << rng.below(8);
+        let cases: Vec<(&str, [u8; 6], [u8; 2], bool)> = vec![
+            ("own identity", own_id, own_ver, true),
+            ("standard identity", codec_ref::PROTOCOL_ID, [0, 1], false),
+            ("own id, other version", own_id, other_ver, false),
+            ("other id, own version", other_id, own_ver, false),
+        ];
+        for (k, (name, pid, ver, accept)) in cases.iter().enumerate() {
+            let src: [u8; 32] = rng.array();
+            let from = v4(10, 3, 3, 1 + k as u8, 9100 + k as u16);
+            let n = 20 + rng.usize(40);
+            let mut p = RawPacket::new(rng.array(), codec_ref::FLAG_MESSAGE, rng.array(), codec_ref::authdata_message(&src), rng.bytes(n));
+            p.protocol_id = *pid;
+            p.version = *ver;
+            rig.inject(from, p.encode(&vid));
+            rig.settle().await;
+            let evs = rig.take_events();
+            let sent = rig.take_sent();
+            // a readable message packet of an unknown sender makes the handler ask who that is
+            let asked = evs.iter().any(|e| matches!(&e.v, HandlerOut::WhoAreYou(_)));
+            if asked != *accept {
+                rep.violation(if *accept { "C05:rejects-own-identity" } else { "C05:accepts-foreign-identity" }, format!("node configured with protocol id {} version {}: a datagram carrying {name} was {}", hx(&own_id), hx(&own_ver), if asked { "accepted" } else { "rejected" }), json!({"scenario_seed": seed.to_string(), "kind": "identity", "case": name}));
+            }
+            if !*accept && !sent.is_empty() {
+                rep.violation("C05:accepts-foreign-identity", format!("a datagram carrying {name} made the node send something"), json!({"scenario_seed": seed.to_string(), "kind": "identity", "case": name}));
+            }
+            rep.count("identity_datagrams");
+        }
+        // outbound: what the node emits carries its own identity
+        let sk = signing_key(&mut rng);
+        let peer_addr = v4(10, 3, 4, 1, 9200);
+        let contact = discv5::NodeContact::new(discv5::enr::CombinedPublicKey::Secp256k1(*sk.verifying_key()), peer_addr, None);
+        let peer_id: [u8; 32] = contact.node_id().raw();
+        rig.submit(HandlerIn::Request(contact, Box::new(Request { id: discv5::RequestId(vec![1]), body: RequestBody::Ping { enr_seq: 1 } })));
+        rig.settle().await;
+        for s in rig.take_sent() {
+            let (_, bytes) = s.v;
+            if bytes.len() < 39 {
+                continue;
+            }
+            let mut iv = [0u8; 16];
+            iv.copy_from_slice(&bytes[..16]);
+            let mut head = bytes[16..39].to_vec();
+            codec_ref::mask(&peer_id, &iv, &mut head);
+            rep.count("identity_emitted_datagrams");
+            if head[..6] != own_id || head[6..8] != own_ver {
+                rep.violation("C05:emits-foreign-identity", format!("node configured with protocol id {} version {} emitted a datagram carrying {} / {}", hx(&own_id), hx(&own_ver), hx(&head[..6]), hx(&head[6..8])), json!({"scenario_seed": seed.to_string(), "kind": "identity"}));
+            }
+        }
+        rep.fingerprint(&("identity", own_id == *b"custom", own_ver == [0, 1]));
+    });
 }
 
 pub fn run(p: &Params) -> Report {
@@ -396,8 +484,19 @@ pub fn run(p: &Params) -> Report {
     if let Some(r) = &p.replay {
         let local: [u8; 32] = hex::decode(r["replay"]["local_id"].as_str().unwrap_or("")).ok().and_then(|v| v.try_into().ok()).unwrap_or([0; 32]);
         let data = hex::decode(r["replay"]["datagram"].as_str().unwrap_or("")).unwrap_or_default();
+        if r["replay"]["kind"] == "identity" {
+            let seed: u64 = r["replay"]["scenario_seed"].as_str().unwrap().parse().unwrap();
+            scenario_identity(seed, &mut rep);
+            return rep;
+        }
         differential(&mut rep, &local, &data, "replay", false);
         return rep;
+    }
+    // the configured identity on the real receive and send paths
+    let idn = p.budget(480, 24_000);
+    for i in 0..idn {
+        let seed = p.shard_seed(0x1D_0000 + i);
+        crate::util::guarded(&mut rep, seed, |rep| scenario_identity(seed, rep));
     }
     if p.shard == 0 {
         exhaustive(&mut rep, &mut rng, &pool);
